@@ -18,7 +18,8 @@ import sys
 from datetime import datetime, timedelta
 
 sys.path.insert(0, os.path.dirname(os.path.abspath(__file__)))
-from lib import Check, REPO, guarded, reslit, zlit, listlit   # noqa: E402
+from lib import Check, REPO, COQ, sh, guarded, reslit, zlit, listlit   # noqa: E402
+import gen_hull                                               # noqa: E402  (tools/)
 
 logging.disable(logging.CRITICAL)
 from geostructures import (Coordinate, GeoBox, GeoLineString, GeoPoint, GeoPolygon,        # noqa: E402
@@ -30,18 +31,27 @@ T0 = datetime(2020, 1, 1)
 _CC = {}
 
 
+SCALE = 1      # the grid step is 1/SCALE degrees (1, 2 or 4: dyadic, so float arithmetic stays exact);
+               # the Gallina literals and the oracle always see the integers p, the library sees p/SCALE
+
+
 def C(p):
-    c = _CC.get(p)
+    c = _CC.get((p, SCALE))
     if c is None:
-        c = _CC[p] = Coordinate(p[0], p[1])
+        c = _CC[(p, SCALE)] = Coordinate(p[0] / SCALE, p[1] / SCALE)
     return c
 
 
 def of_coord(c):
-    lon, lat = c.longitude, c.latitude
+    lon, lat = c.longitude * SCALE, c.latitude * SCALE
     if float(lon) != int(lon) or float(lat) != int(lat) or c.z is not None:
         raise ValueError('non-grid output')
     return (int(lon), int(lat))
+
+
+def set_scale(k):
+    global SCALE
+    SCALE = k
 
 
 def ptlit(p):
@@ -344,16 +354,29 @@ def nontrivial(pts):
 def main():
     ck = Check('C10')
     ck.build_theories(['theories/Props/C10.vo', 'theories/Corr/HullK.vo'])
+    # translator tie for the orientation test; if the translator abstains the function is still
+    # covered by the correspondence below (DESIGN 2.2), which is recorded in the evidence
+    rep = gen_hull.main(REPO, os.path.join(ck.rundir, 'HullGen.v'))
+    if all(v == 'translated' for v in rep.values()):
+        ck.gen('HullGen.v', rep, 'HullGenEq.v')
+    else:
+        ck.translator.update(rep)
     ck.props('Props/C10.v')
     rng = ck.rng
     thorough = ck.tier == 'thorough'
+    if thorough:       # independent re-check of the compiled property file and everything it depends on
+        rc, out = sh(['coqchk', '-silent', '-o', '-Q', os.path.join(COQ, 'theories'), 'GV', 'GV.Props.C10'], cwd=COQ, timeout=1500)
+        ok = rc == 0 and 'Axioms: <none>' in out
+        ck.obligations.append({'name': 'coqchk GV.Props.C10 (no axioms, no unsafe features)', 'kind': 'coqchk', 'ok': ok,
+                               'detail': '' if ok else out[-800:]})
 
     cases, meta = [], []
     seen_nontrivial = set()
 
-    def add_direct(pts, cls):
+    def add_direct(pts, cls, scale=1):
+        set_scale(scale)
         r = guarded(lambda: impl_hull(pts))
-        m = {'k': 'hull', 'class': cls, 'pts': pts, 'out': r}
+        m = {'k': 'hull', 'class': cls, 'pts': pts, 'out': r, 'scale': scale}
         if r[0] == 'Ok':
             cases.append(f'KHull {ptslit(pts)} {ptslit(r[1])}')
             m['clauses'] = oracle(pts, r[1])
@@ -366,9 +389,10 @@ def main():
             seen_nontrivial.add(tuple(pts))
         return r
 
-    def add_entry(kind, pts, cls):
+    def add_entry(kind, pts, cls, scale=1):
+        set_scale(scale)
         r, ms = impl_entry(kind, pts, rng)
-        m = {'k': 'entry', 'entry': kind, 'class': cls, 'pts': pts, 'members': ms, 'out': r}
+        m = {'k': 'entry', 'entry': kind, 'class': cls, 'pts': pts, 'members': ms, 'out': r, 'scale': scale}
         cases.append(f'KEntry {listlit([ptslit(x) for x in ms])} {reslit(r, ptslit)}')
         flat = [p for x in ms for p in x]
         m['clauses'] = oracle(flat, r[1]) if r[0] == 'Ok' else \
@@ -391,9 +415,11 @@ def main():
     perm_bad = []
     for it in range(n_gen):
         pts, cls = GENS[it % len(GENS)](rng)
-        r = add_direct(pts, cls)
+        scale = (1, 1, 1, 2, 4)[(it // len(GENS)) % 5]     # some runs on the half / quarter degree grid
+        r = add_direct(pts, cls, scale)
         if it % 2 == 0:
-            add_entry(next(kinds), pts, cls)
+            add_entry(next(kinds), pts, cls, scale)
+        set_scale(scale)
         # order / multiplicity: a shuffled copy with some points repeated must give the same list
         q = pts[:]
         rng.shuffle(q)
@@ -401,11 +427,12 @@ def main():
         r2 = guarded(lambda: impl_hull(q))
         perm_checks += 1
         if r2 != r:
-            perm_bad.append({'pts': pts, 'permuted': q, 'out': r, 'out_permuted': r2})
+            perm_bad.append({'pts': pts, 'permuted': q, 'out': r, 'out_permuted': r2, 'scale': scale})
 
     # -- all permutations of small sets: one canonical order is compared with the model in Coq; the
     #    other orders are compared with that answer here (the model is permutation invariant by
     #    theorem C10_hull_perm, so equality with the canonical answer is equality with the model)
+    set_scale(1)
     grid = [(x, y) for x in range(4) for y in range(4)]
     subsets = []
     if thorough:
@@ -414,16 +441,11 @@ def main():
     else:
         for k in range(1, 4):
             subsets += [list(c) for c in itertools.combinations(grid, k)]
-        subsets += [rng.sample(grid, k) for k in (4, 5, 6) for _ in range(60)]
+        subsets += [rng.sample(grid, k) for k in (4, 5, 6) for _ in range(150)]
     for S in subsets:
         S = sorted(S)
         r = add_direct(S, 'grid4x4-subset')
-        k = len(S)
-        if k <= (5 if thorough else 4):
-            perms = itertools.permutations(S)
-        else:
-            perms = (rng.sample(S, k) for _ in range(24 if thorough else 30))
-        for q in perms:
+        for q in itertools.permutations(S):
             q = list(q)
             r2 = guarded(lambda: impl_hull(q))
             perm_checks += 1
@@ -447,6 +469,7 @@ def main():
         if not (i in bad or m['clauses']) or reported >= 5:
             break
         flat = m['pts'] if m['k'] == 'hull' else [p for x in m['members'] for p in x]
+        set_scale(m.get('scale', 1))
         small = shrink(flat, impl_fails) if flat and impl_fails(flat) else None
         rep = {'kind': 'property-fails-on-implementation' if m['clauses'] else 'model-vs-implementation',
                'case': m, 'gallina_case': cases[i], 'property_clauses_violated': m['clauses'],
@@ -455,26 +478,28 @@ def main():
                'how_to_replay': 'bin/check C10 --replay <this file>'}
         if small is not None:
             rs = guarded(lambda: impl_hull(small))
-            rep['shrunk'] = {'pts': small, 'implementation': rs, 'reference': ref_hull(small),
+            rep['shrunk'] = {'pts': small, 'scale': SCALE, 'implementation': rs, 'reference': ref_hull(small),
                              'clauses': oracle(small, rs[1]) if rs[0] == 'Ok' else [('raises', rs[1])]}
         ck.violation(rep)
         reported += 1
+    set_scale(1)
     for pb in perm_bad[:max(0, 5 - reported)]:
+        set_scale(pb.get('scale', 1))
         small = shrink(pb['pts'], lambda q: impl_fails(q) or impl_fails(q[::-1]) or
                        guarded(lambda: impl_hull(q)) != guarded(lambda: impl_hull(q[::-1])))
         ck.violation({'kind': 'property-fails-on-implementation',
                       'property_clauses_violated': [('permutation', 'the hull depends on the order or multiplicity of the input')],
-                      'case': {'k': 'perm', **pb}, 'shrunk': {'pts': small},
+                      'case': {'k': 'perm', **pb}, 'shrunk': {'pts': small, 'scale': SCALE},
                       'theorems': 'C10_hull_perm / C10_hull_same_set', 'how_to_replay': 'bin/check C10 --replay <this file>'})
 
-    ck.finish(rule='fixed corpus x every entry point; seeded generators (random integer grids of radius 1..80 with repeats, '
+    ck.finish(rule='fixed corpus x every entry point; seeded generators (random integer grids of radius 1..80 with repeats - two runs in five on the half / quarter degree grid, scaled to integers for the model -, '
                    'all-collinear runs incl. vertical/horizontal, convex polygons with lattice points on their edges and interior, '
                    'axis-aligned grids, few-distinct-longitude sets), 1..40 points, each also through one of MultiGeoPoint/'
                    'MultiGeoLineString/MultiGeoPolygon/FeatureCollection/Track and re-run shuffled with repeats; subsets of the 4x4 grid '
-                   '(thorough: all 14892 subsets of <= 6 points, all permutations for <= 5 points, 24 random orders for 6) with '
-                   'every order compared with the canonical one; non-trivial = at least 3 distinct points and (a repeated input point, '
+                   '(thorough: all 14892 subsets of <= 6 points; quick: all of <= 3 points and 450 random ones of 4..6), each in ALL its '
+                   'orders, every order compared with the canonical one (which Coq compares with the model); non-trivial = at least 3 distinct points and (a repeated input point, '
                    'or two points sharing a longitude, or an input point on a hull edge); distinct input tuples counted',
-              assumptions=['coordinates are (lon, lat) integers with |lon| <= 90, no Z value: float cross products are exact, '
+              assumptions=['coordinates are (lon, lat) on the integer, half or quarter degree grid with |lon| <= 90, no Z value: float cross products are exact, '
                            'Coordinate does not wrap, ensure_edge_bounds is the identity',
                            'sorted(set(...)) is modelled as the unique strictly increasing list of the distinct inputs'])
 
@@ -486,8 +511,9 @@ def replay(path):
     if pts is None:
         print(json.dumps(r, indent=1)); return
     pts = [tuple(p) for p in pts]
+    set_scale((r.get('shrunk') or {}).get('scale') or m.get('scale') or 1)
     out = guarded(lambda: impl_hull(pts))
-    print('input:', pts)
+    print(f'input (grid step 1/{SCALE} degree):', pts)
     print('implementation now:', out)
     print('reference (mirror of the Coq model):', ref_hull(pts))
     if out[0] == 'Ok':
